@@ -34,6 +34,7 @@
 //   fsF body of frame F started (its tracked local constructed)     rgF:A cleanup A registered
 //   lsI:S leaf I started, S = stop already requested on its token   lpI leaf I got a stop notification
 //   ldF locals of frame F destroyed    clF:A cleanup A of frame F ran    fdF frame F destroyed
+//   cqK the cleanup action that just started sees scheduler K through its receiver
 //   sqK a schedule() operation of scheduler K was started (K = 0: the receiver's scheduler)
 //   scK a schedule() operation of scheduler K saw a stop request on its receiver's token and completed with done
 //       (the schedulers are cancellable; the library's internal hops must be unstoppable)
@@ -152,6 +153,15 @@ struct LeafSender {
     bool inCtor = false, completeAfterCtor = false;
     Op(World* w, int id, bool cleanup, R&& r) : w(w), id(id), cleanup(cleanup), r(std::move(r)) {}
     void start() noexcept {
+      if (cleanup) {
+        // the scheduler a cleanup action sees (the task's scheduler when the cleanup was registered)
+        if constexpr (std::is_invocable_v<tag_t<get_scheduler>, const R&>) {
+          int tag = -1;
+          auto sch = get_scheduler(std::as_const(r));
+          for (int k = 0; k < 4; ++k) if (sch == any_scheduler{ManualScheduler{w, k}}) tag = k;
+          w->emit("cq" + std::to_string(tag));
+        } else w->emit("cq?");
+      }
       if (cleanup && id <= 0) { unifex::set_value(std::move(r), 0); return; }   // cleanup without a leaf
       Spec sp = w->specs.count(id) ? w->specs[id] : Spec{};
       auto st = get_stop_token(r);
